@@ -83,21 +83,28 @@ class AffineParser(BaseParser):
     def _create_binop_expr(
         self, lhs: AffineExpr, rhs: AffineExpr, binop: MLIRToken
     ) -> AffineExpr:
-        match binop.text:
-            case "+":
-                return lhs + rhs
-            case "-":
-                return lhs - rhs
-            case "*":
-                return lhs * rhs
-            case "ceildiv":
-                return lhs.ceil_div(rhs)
-            case "floordiv":
-                return lhs // rhs
-            case "mod":
-                return lhs % rhs
-            case _:
-                raise ParseError(binop.span, f"Unknown binary operator {binop.text}")
+        try:
+            match binop.text:
+                case "+":
+                    return lhs + rhs
+                case "-":
+                    return lhs - rhs
+                case "*":
+                    return lhs * rhs
+                case "ceildiv":
+                    return lhs.ceil_div(rhs)
+                case "floordiv":
+                    return lhs // rhs
+                case "mod":
+                    return lhs % rhs
+                case _:
+                    pass
+        except ZeroDivisionError:
+            raise ParseError(binop.span, "Division by zero in affine expression")
+        except NotImplementedError as e:
+            # semi-affine expressions are not supported yet
+            raise ParseError(binop.span, f"Non-affine expression: {e}")
+        raise ParseError(binop.span, f"Unknown binary operator {binop.text}")
 
     def _parse_binop_rhs(
         self,
